@@ -289,3 +289,121 @@ def rule_R24_sole(ctx, rep, config="c-lib", tag=""):
 
 def rule_R24_sole_cxx(ctx, rep, config="cxx-lib"):
     rule_R24_sole(ctx, rep, config="cxx-lib", tag="[c++] ")
+
+
+def rule_R24_reserve(ctx, rep, config="c-lib", tag=""):
+    rep.rule("R24-reserve", "the lookup with reservation returns an EMPTY entry for an absent element also when it reuses a deleted entry: the only store of the EMPTY "
+                            "mark in the lookup goes through the remembered deleted entry (the pointer that may be NULL while no deleted entry was seen), never through "
+                            "the probe position, which is EMPTY already -- otherwise the caller gets an entry that still holds the DELETED mark and takes the element "
+                            "for present")
+    p = ctx.prog(config)
+    fs = [f for f in p.m.defined() if f.module and f.module.startswith("hashtab.") and (f.name == "find_hash_table_entry" or f.d.get("srcname") == "find_entry")]
+    if len(fs) != 1:
+        raise AnalysisBroken("R24-reserve: %d candidates for the lookup" % len(fs))
+    f = fs[0]
+    rep.cover(p, [f.name])
+    n = 0
+    for s_ in f.all_insts():
+        if s_.op != "store" or strip_casts(f, s_.ops[0]).get("k") != "null" or not (s_.ops[0].get("ty") or "i8*").endswith("*"):
+            continue
+        a = f.inst(strip_casts(f, s_.ops[1]))
+        if a is None or a.ty != "i8**":
+            continue
+        n += 1
+        key = tag + f.name + "/empty-mark-through-deleted-entry#%d" % n
+
+        def may_be_null(x, depth=0):
+            if x is None or depth > 4:
+                return False
+            if x.op == "phi":
+                return any(strip_casts(f, v).get("k") == "null" or may_be_null(f.inst(strip_casts(f, v)), depth + 1) for (v, _) in x.d["incoming"] if strip_casts(f, v).get("v") != x.id)
+            return False
+        if may_be_null(a):
+            rep.ok("R24-reserve", key, sample={"store": s_.where()})
+        else:
+            rep.violation("R24-reserve", key, "the EMPTY mark is stored through the probe position (%s), not through the remembered deleted entry: the entry handed to the "
+                          "caller for an absent element still holds the DELETED mark, the caller takes the element for present and never stores it" % a.op,
+                          where=s_.where(), witness=[s_.where()])
+    rep.floor("R24-reserve", tag + "stores of the EMPTY mark in the lookup", n, 1)
+
+
+def rule_R24_reserve_cxx(ctx, rep, config="cxx-lib"):
+    rule_R24_reserve(ctx, rep, config="cxx-lib", tag="[c++] ")
+
+
+def rule_R24_first_length(ctx, rep, config="c-lib", tag=""):
+    rep.rule("R24-first-length", "initial_segment_length of an object stack describes its first segment (OS_EMPTY keeps that segment and recomputes the boundary from the "
+                                 "field): it is written by the constructor only, or under a test that the segment in question has no predecessor")
+    from .r5 import _controlling_conditions
+    p = ctx.prog(config)
+    n = 0
+    for f in p.m.defined():
+        if not f.module or not f.module.startswith("objstack."):
+            continue
+        nm = f.d.get("srcname") or f.name
+        for s_ in f.all_insts():
+            if s_.op != "store" or (resolve_addr(f, s_.ops[1]).last_field() or "").split(".")[-1] != "initial_segment_length":
+                continue
+            n += 1
+            rep.cover(p, [f.name])
+            key = tag + "%s/initial_segment_length#%d" % (nm, n)
+            if nm in ("_OS_create_function", "os") or "C2E" in f.name or "C1E" in f.name:
+                rep.ok("R24-first-length", key, sample={"store": s_.where(), "in": "constructor"})
+                continue
+            guarded = False
+            for (cc, pol) in _controlling_conditions(f, s_.block.name):
+                for o in cc.ops:
+                    lp = loaded_from(f, o)
+                    if lp is not None and (lp.last_field() or "").endswith("os_previous_segment") and cc.d["pred"] in ("eq", "ne") and (cc.d["pred"] == "eq") == pol:
+                        guarded = True
+            if guarded:
+                rep.ok("R24-first-length", key, sample={"store": s_.where(), "in": "under `no previous segment'"})
+            else:
+                rep.violation("R24-first-length", key, "%s records a new length of the first segment without knowing that the segment it replaced was the first one: OS_EMPTY "
+                              "later keeps the real first segment and sets its boundary by this length -- additions write behind the segment" % nm,
+                              where=s_.where(), witness=[s_.where()])
+    rep.floor("R24-first-length", tag + "stores of initial_segment_length", n, 1)
+
+
+def rule_R24_first_length_cxx(ctx, rep, config="cxx-lib"):
+    rule_R24_first_length(ctx, rep, config="cxx-lib", tag="[c++] ")
+
+
+def rule_R24_walk_free(ctx, rep, config="c-lib", tag=""):
+    rep.rule("R24-walk-free", "the object stack releases its chain of segments by walking it: a release inside a walking loop releases the segment the walk is at (the "
+                              "loop's own variable), not a field of the object that the loop does not advance -- that segment would be released once per iteration "
+                              "and the others never")
+    p = ctx.prog(config)
+    n = 0
+    for f in p.m.defined():
+        if not f.module or not f.module.startswith("objstack."):
+            continue
+        for L in f.loops():
+            hph = set(i.id for i in f.bmap[L["header"]].insts if i.op == "phi")
+            for bn in L["body"]:
+                for c in f.bmap[bn].insts:
+                    if not c.is_call():
+                        continue
+                    g = p.m.functions.get(c.callee or "")
+                    nm = (g.d.get("srcname") if g is not None else None) or (c.callee or "")
+                    if nm not in ("yaep_free", "free") or not c.args:
+                        continue
+                    n += 1
+                    rep.cover(p, [f.name])
+                    key = tag + "%s/release-in-walk#%d" % (f.d.get("srcname") or f.name, n)
+                    x = f.inst(strip_casts(f, c.args[-1]))
+                    k = 0
+                    while x is not None and x.op in ("bitcast",) and k < 3:
+                        x = f.inst(strip_casts(f, x.ops[0]))
+                        k += 1
+                    if x is not None and x.id in hph:
+                        rep.ok("R24-walk-free", key, sample={"release": c.where()})
+                    else:
+                        rep.violation("R24-walk-free", key, "the release inside the loop over the segments does not release the segment the loop is at (its argument is %s): "
+                                      "one segment is released again in every iteration, the others are never released" % (
+                                          "a member of the object" if x is not None and x.op == "load" else "not the loop variable"), where=c.where(), witness=[c.where()])
+    rep.floor("R24-walk-free", tag + "releases inside segment walks", n, 2)
+
+
+def rule_R24_walk_free_cxx(ctx, rep, config="cxx-lib"):
+    rule_R24_walk_free(ctx, rep, config="cxx-lib", tag="[c++] ")
